@@ -15,7 +15,7 @@ RULE = ("(line | quadratic | cubic, line) pairs; curves from the families int, g
         "(straight-line curves), elevated with the leading coefficient re-introduced at 10^-k (k = 0..16); lines through a point of the curve in a random, "
         "vertical or horizontal direction (integer, grid and float end points), plus unrelated lines, near-parallel long line pairs and nearly vertical lines; "
         "true crossings by exact Sturm isolation of cross(e - s, A(t) - s) in Q; a pair is in general position when every carrier crossing has both parameters "
-        "either in [1e-4, 1 - 1e-4] (a true crossing) or outside [-1e-4, 1 + 1e-4], the polynomial is square-free, the curve is not within 1e-9 of the extent of the carrier as a whole, the crossing angle has |sin| >= 0.02 "
+        "either in [1e-4, 1 - 1e-4] (a true crossing) or outside [-1e-4, 1 + 1e-4], the curve is not within 1e-9 of the extent of the carrier as a whole, the crossing angle has |sin| >= 0.02 "
         "(curves; lines: not exactly parallel) and the curve does not lie on the carrier; other pairs are skipped and counted; both receivers; "
         "non-trivial = at least one true crossing; distinct = distinct pair")
 UNPROVED = ["Cardano completeness: that the closed forms list EVERY real root (soundness is proved: cubic_cardano_sound, cubicRoots_cardano_sound); sampled against exact Sturm root counts",
@@ -77,8 +77,6 @@ def expected(apts, lpts):
             continue
         if not (t_in and u_in):
             return "near-end"
-        if not sqf:
-            return "tangent"
         if len(apts) > 2:
             vx, vy = pr.peval(dpx, t), pr.peval(dpy, t)
             sp = vx * vx + vy * vy
@@ -86,7 +84,8 @@ def expected(apts, lpts):
                 return "cusp"
             gd = pr.peval(dg, t)
             if gd * gd < F(4, 10000) * sp * n2:
-                return "tangent"
+                return "tangent"          # includes every multiple root inside the window (g' vanishes there); a tangency of the
+                                          # EXTENDED curve outside the segment does not make the pair tangential
         out.append((float(t), float(u)))
     return out
 
@@ -213,6 +212,18 @@ def rand_pair(rng, i):
         apts = [(x, -float(rng.randint(10, 500))), (x * (1 + rng.uniform(1e-10, 9e-10)), float(rng.randint(10, 500)))]
         lpts = [(x - float(rng.randint(10, 300)), float(rng.randint(-5, 5))), (x + float(rng.randint(10, 300)), float(rng.randint(-5, 5)))]
         return apts, lpts
+    if order == 4 and r < 0.06:
+        # exactly vanishing Cardano discriminant: the polynomial along a horizontal left-to-right line is k (t - r0)(t - m)^2 with the double
+        # root m outside the segment and the simple root r0 inside (dyadic data: the float discriminant is exactly 0)
+        r0 = rng.choice([0.25, 0.5, 0.375, 0.75])
+        m = rng.choice([2.0, -1.0, 1.5, 3.0, -0.5])
+        k = rng.choice([1.0, -1.0, 2.0, 0.5, -4.0])
+        c = [-k * r0 * m * m, k * (m * m + 2 * r0 * m), -k * (2 * m + r0), k]          # power basis
+        ys = [c[0], c[0] + c[1] / 3, c[0] + 2 * c[1] / 3 + c[2] / 3, c[0] + c[1] + c[2] + c[3]]
+        y0 = float(rng.randint(-20, 20))
+        xs = [10.0, 40.0, 70.0, 100.0] if rng.random() < 0.5 else [100.0, 70.0, 40.0, 10.0]
+        apts = [(x, y0 + y) for x, y in zip(xs, ys)]
+        return apts, [(0.0, y0), (150.0, y0)]
     if order > 2 and r < 0.25:
         # a line through two nearby points of the curve: two crossings close together (the aligned polynomial is close to a double root)
         t0 = rng.uniform(0.1, 0.85)
